@@ -11,6 +11,7 @@ import MorphKgc.Lemmas.MaximalScan
 import MorphKgc.Lemmas.Render
 import MorphKgc.Lemmas.Pct
 import MorphKgc.Props.C02
+import MorphKgc.Gen.GroupSet
 
 namespace Props.C03
 open Py Model
@@ -853,6 +854,32 @@ theorem C03_disjoint (env : Env) (hf : env.fmt = .nquads) (mode : PartMode) (rul
     simp [hi, hj]
   | partialAggregations => exact C03_disjoint_partial env hf rules ls hp hsafe i j hi hj hne out₁ out₂ h₁ h₂
   | maximal => exact C03_disjoint_maximal env hf rules ls hp hsafe i j hi hj hne out₁ out₂ h₁ h₂
+
+/-! ### within a group: the accumulator is a Python set (regenerated from materializer.py on every run) -/
+
+/-- what a group hands to its sink, as a function of the accumulator kind the translator found -/
+def groupOut (acc : Gen.GroupAcc) (parts : List (List Str)) : List Str :=
+  match acc with
+  | .pySet => dedupFirst parts.flatten
+  | .unknown => parts.flatten
+
+/-- both sinks (`_materialize_mapping_group_to_set`, `_materialize_mapping_group_to_file`) accumulate into a set that is
+    updated unconditionally; the file variant reports its cardinality -/
+theorem C03_group_accumulator : Gen.groupAccToSet = .pySet ∧ Gen.groupAccToFile = .pySet ∧ Gen.groupSetTranslated = true := by
+  decide
+
+/-- hence, whatever the rules of a group produce (rows that collapse to one statement, rules that overlap), the group's
+    output holds every statement exactly once, and `Model.evalGroup`'s `dedupFirst` is what the code does -/
+theorem C03_group_no_duplicates (parts : List (List Str)) :
+    (groupOut Gen.groupAccToFile parts).Nodup ∧ (groupOut Gen.groupAccToSet parts).Nodup ∧
+    (∀ x, x ∈ groupOut Gen.groupAccToFile parts ↔ x ∈ parts.flatten) ∧
+    groupOut Gen.groupAccToFile parts = dedupFirst parts.flatten := by
+  have h := C03_group_accumulator
+  rw [h.1, h.2.1]
+  exact ⟨nodup_dedupFirst _, nodup_dedupFirst _, fun x => by simp [groupOut, mem_dedupFirst], rfl⟩
+
+/-- counter-witness for any other accumulator: a list keeps the statement that two rows collapse to twice -/
+theorem C03_group_list_counterwitness : ¬ (groupOut .unknown [[['a'], ['a']]]).Nodup := by decide
 
 /-! ### the per-group outputs together have no duplicates -/
 
